@@ -120,6 +120,58 @@ def parity_by_paths(facts, b0, even, odd, is_tagged):
     return None
 
 
+def unmask_scope(res, facts):
+    """UNMASK-SCOPE: a slot helper that receives the address transformer of its table (the even table strips the tag bit, the
+    odd one does not) applies it to the *data word* only.  Applied to the view pointer - whose low bit is address, not tag -
+    it makes the result depend on the parity of the view's address."""
+    from .flow import ExprBuilder, canon, walk, fmt_expr
+    n = 0
+    for b in facts.fn_bodies():
+        if facts.is_test(b) or b.kind not in ("fn", "assoc_fn") or b.arg_count < 3:
+            continue
+        tys = [b.locals[i]["ty"] for i in range(1, b.arg_count + 1)]
+        if not any("AtomicPtr" in t or "Atomic<*mut" in t for t in tys):
+            continue
+        view_params = [i for i in range(1, b.arg_count + 1) if b.locals[i]["ty"] in ("*const u8", "*mut u8")]
+        fn_params = [i for i in range(1, b.arg_count + 1) if b.locals[i]["ty"].startswith(("fn(", "unsafe fn(", "extern")) or "closure" in b.locals[i]["ty"]
+                     or b.locals[i]["ty"] in ("F", "G") or b.locals[i]["ty"].startswith("impl Fn")]
+        if not view_params or not fn_params:
+            continue
+        eb = ExprBuilder(b, facts, inline=True)
+        for bi, blk in enumerate(b.blocks):
+            t = blk["term"]
+            if t["k"] != "call" or blk["cleanup"]:
+                continue
+            loc = (bi, len(blk["stmts"]))
+            fn = callee(t)
+            applied = None
+            if fn is None:
+                f = canon(eb.operand(t["func"], loc))
+                if any(x == ("param", k) for x in walk(f) for k in fn_params):
+                    applied = [canon(eb.operand(a, loc)) for a in t["args"]]
+            else:
+                args = [canon(eb.operand(a, loc)) for a in t["args"]]
+                # f handed on to a mapper (`ptr_map(x, f)`, `FnOnce::call_once(f, (x,))`): everything else in the call is what it is applied to
+                def is_f(a):
+                    while isinstance(a, tuple) and a and a[0] in ("ref", "deref"):
+                        a = a[1]
+                    return any(a == ("param", k) for k in fn_params)
+                if any(is_f(a) for a in args):
+                    applied = [a for a in args if not is_f(a)]
+            if applied is None:
+                continue
+            n += 1
+            bad = [a for a in applied if any(x == ("param", k) for x in walk(a) for k in view_params)]
+            key = "%s|transformer applied#%d" % (b.id, n)
+            if bad:
+                res.bad("%s|table's address transformer applied to the view pointer" % b.id, b.loc(bi),
+                        "the per-table address transformer (tag unmasking for even buffers) is applied to `%s`, which derives from the view pointer: "
+                        "the low bit of a view address is not a tag, results would depend on address parity" % fmt_expr(bad[0])[:80])
+            else:
+                res.ok(key, b.loc(bi), "applied to the data word only", nontrivial=True)
+    return n
+
+
 def run(facts):
     res = Result("E2", "the even/odd promotable vtables are slot-wise isomorphic modulo unmasking; the parity dispatch pairs tagged data with the "
                        "unmasking vtable; KIND constants and alignment assertions agree between the two modules")
@@ -295,4 +347,6 @@ def run(facts):
         res.ok(key, "-", "%d compile-time assertions that the control blocks' alignment is even (tag bit is free)" % n_align)
     else:
         res.bad(key, "-", "compile-time assertion `align_of::<Shared>() %% 2 == 0` missing for a control block (%d found)" % n_align)
+    nu = unmask_scope(res, facts)
+    res.notes.append("%d applications of a caller-supplied address transformer in slot helpers (vacuous when the tables do not share helpers)" % nu)
     return res
